@@ -28,3 +28,4 @@ def check(ck):
     ck.run(H.check_bindings, ck, "C01.R10")
     # edits delivered inside a running process reach the results only through the version updater
     ck.run(H.check_update_protocol, ck, "C01.R12")
+    ck.run(H.check_recompute_from_scratch, ck, "C01.R13")
